@@ -53,6 +53,9 @@ pub struct Case {
     /// label -> per-colour masks
     pub sets: Vec<(String, Vec<Mask>)>,
     pub formulas: Vec<String>,
+    /// what is at the target path before the write: 0 nothing, 1 a result archive of another run (other
+    /// model, other formula list, overlapping and additional labels), 2 a file that is no zip, 3 an empty file
+    pub prior: u8,
 }
 
 pub fn check(b: &Bound, c: &Case) -> Result<Option<String>, String> {
@@ -69,6 +72,26 @@ pub fn check(b: &Bound, c: &Case) -> Result<Option<String>, String> {
             Err(e) => return Some(format!("graph for the network read from {}: {e}", c.fmt)),
         };
         let written: HashMap<String, GraphColoredVertices> = c.sets.iter().map(|(l, m)| (l.clone(), b.mk_set_in(&g1, m))).collect();
+        match c.prior {
+            1 => {
+                let other = BooleanNetwork::try_from("zz_old -| zz_old\n$zz_old: !zz_old\n").unwrap();
+                let go = get_extended_symbolic_graph(&other, 1).unwrap();
+                let mut old: HashMap<String, GraphColoredVertices> = HashMap::from([("old_only".to_string(), go.mk_unit_colored_vertices()), ("formula-0".to_string(), go.mk_empty_colored_vertices()), ("formula-7".to_string(), go.mk_unit_colored_vertices())]);
+                if let Some((l, _)) = c.sets.first() {
+                    old.insert(l.clone(), go.mk_unit_colored_vertices());
+                }
+                if let Err(e) = build_result_archive(old, &path_s, other.to_string().as_str(), vec!["OLD FORMULA 1".into(), "OLD FORMULA 2".into(), "OLD FORMULA 3".into(), "OLD FORMULA 4".into(), "OLD FORMULA 5".into()]) {
+                    return Some(format!("writing the earlier archive fails: {e}"));
+                }
+            }
+            2 | 3 => {
+                let _ = std::fs::create_dir_all(path.parent().unwrap());
+                if std::fs::write(&path, if c.prior == 2 { &b"this is not a zip archive, just a file that happens to be there\n"[..] } else { &b""[..] }).is_err() {
+                    return Some("cannot prepare the pre-existing file".into());
+                }
+            }
+            _ => {}
+        }
         if let Err(e) = build_result_archive(written.clone(), &path_s, bn_f.to_string().as_str(), c.formulas.clone()) {
             return Some(format!("build_result_archive fails: {e}"));
         }
@@ -262,6 +285,7 @@ pub fn replay(case: &Value) -> Option<String> {
         k: case["k"].as_u64()? as u16,
         sets: serde_json::from_value(case["sets"].clone()).ok()?,
         formulas: serde_json::from_value(case["formulas"].clone()).ok()?,
+        prior: case["prior"].as_u64().unwrap_or(0) as u8,
     };
     check(&b, &c).ok().flatten()
 }
@@ -312,7 +336,13 @@ pub fn run(tier: &str) -> Result<Report, String> {
                         if tier == "quick" && (mi + fi) % 2 == 1 && mi != 3 {
                             continue;
                         }
-                        cases.push((b.clone(), Case { net: b.name.clone(), fmt: fmt.to_string(), k, sets: m.clone(), formulas: fl.clone() }));
+                        cases.push((b.clone(), Case { net: b.name.clone(), fmt: fmt.to_string(), k, sets: m.clone(), formulas: fl.clone(), prior: 0 }));
+                        // histories of the target path: the same write over an earlier archive / a non-zip file / an empty file
+                        if fmt == "aeon" && (tier != "quick" || k == ks[0]) {
+                            for prior in 1..=3u8 {
+                                cases.push((b.clone(), Case { net: b.name.clone(), fmt: fmt.to_string(), k, sets: m.clone(), formulas: fl.clone(), prior }));
+                            }
+                        }
                     }
                 }
             }
@@ -322,8 +352,8 @@ pub fn run(tier: &str) -> Result<Report, String> {
         .par_iter()
         .map(|(b, c)| match check(b, c) {
             Ok(Some(w)) => Some(Violation {
-                case: json!({"kind": "archive", "net": b.spec, "aeon": b.aeon, "fmt": c.fmt, "k": c.k, "sets": c.sets, "formulas": c.formulas}),
-                what: format!("network {} via {} with k={}, labels {:?}, {} formula lines: {w}", c.net, c.fmt, c.k, c.sets.iter().map(|s| &s.0).collect::<Vec<_>>(), c.formulas.len()),
+                case: json!({"kind": "archive", "net": b.spec, "aeon": b.aeon, "fmt": c.fmt, "k": c.k, "sets": c.sets, "formulas": c.formulas, "prior": c.prior}),
+                what: format!("network {} via {} with k={}{}, labels {:?}, {} formula lines: {w}", c.net, c.fmt, c.k, ["", ", written over an earlier result archive at the same path", ", written over a non-zip file", ", written over an empty file"][c.prior as usize], c.sets.iter().map(|s| &s.0).collect::<Vec<_>>(), c.formulas.len()),
                 size: c.sets.len() + c.formulas.len(),
             }),
             _ => None,
@@ -356,6 +386,6 @@ pub fn run(tier: &str) -> Result<Report, String> {
         }
     }
     rep.sample(json!({"network": "con2", "format": "sbml", "k": 2, "labels": ["a", "x_1", "A.b", "formula-0"], "formulae_lines": 3}));
-    rep.rule = format!("networks {which:?} x input format (aeon, aeon with reversed line order, sbml, bnet where the format reproduces the network exactly) x k in {ks:?} x 7 label->set maps (empty map, empty set, unit set, colour-dependent/empty-for-some-colours/colour-disjoint family sets, raw results; labels formula-0, a, x_1, A.b, run.2.fixed, 'dom 1', x-y, é_2, BDD, a.bdd, nested labels zz/p 0/p dir/sub/q next to p, s0..) x 4 formula lists (0-3 lines): build_result_archive -> independent unzip (entry list exact, formulae.txt lines) -> model.aeon re-parsed, symbolic context compared by variable names -> load_bdd_bundle -> every set compared point-wise on all (state, valid colour) pairs and as BDD -> reloaded sets used as wild-card/domain context of three extended formulae; plus analyse_formulae archives: entry formula-i equals the result of line i. distinct_nontrivial = round-trip cases with at least one set");
+    rep.rule = format!("networks {which:?} x input format (aeon, aeon with reversed line order, sbml, bnet where the format reproduces the network exactly) x k in {ks:?} x 7 label->set maps (empty map, empty set, unit set, colour-dependent/empty-for-some-colours/colour-disjoint family sets, raw results; labels formula-0, a, x_1, A.b, run.2.fixed, 'dom 1', x-y, é_2, BDD, a.bdd, nested labels zz/p 0/p dir/sub/q next to p, s0..) x 4 formula lists (0-3 lines) x (aeon) 4 histories of the target path (fresh, an earlier result archive of another model with other formulae and overlapping + additional labels, a non-zip file, an empty file): build_result_archive -> independent unzip (entry list exact, formulae.txt lines) -> model.aeon re-parsed, symbolic context compared by variable names -> load_bdd_bundle -> every set compared point-wise on all (state, valid colour) pairs and as BDD -> reloaded sets used as wild-card/domain context of three extended formulae; plus analyse_formulae archives: entry formula-i equals the result of line i. distinct_nontrivial = round-trip cases with at least one set");
     Ok(rep)
 }
